@@ -1,5 +1,6 @@
 (** Correspondence for C16. *)
 From Coq Require Import List String Ascii Bool Arith NArith.
+From GM Require Corr.AnaCross.
 From GM Require Import Base.Result Facts.GoFacts Facts.Ana Model.Enums Model.SqlTypes Model.Comments Corr.Check_C08.
 Import ListNotations.
 Local Open Scope string_scope.
@@ -73,5 +74,5 @@ Section Generic.
     | c :: r => if f c then mism_from (N.succ n) r else n :: mism_from (N.succ n) r
     end.
 End Generic.
-Definition mismatches := mism_from chk 0%N.
+Definition mismatches := mism_from (fun c => AnaCross.ana_cross (c16_prog c) (c16_ana c) && chk c) 0%N.
 Definition prop_failures := mism_from chk_prop 0%N.
